@@ -7,6 +7,8 @@ package main
 //                                                              mode c: one message, proto.Marshal -> proto.Unmarshal ->
 //                                                              encoder -> strings.Join("\n") as rawpanel-lib-c/main.go:43
 //   dout.lines <n> <hexline>* | <msgs> ; <oracle>              RawPanelASCIIstringsToOutboundMessages(lines)
+//   dout.rx <regexvar>        | <hex of Regexp.String()>       the library's own compiled regex object (go:linkname)
+//   dout.match <regexvar> <hexline> | - (no match) or M <hex submatch>*   FindStringSubmatch of that object
 // Message token format: see lean/RawPanelVerif/Driver/ConvOut.lean.  Oracle entries are values of strconv /
 // encoding/json the Lean models do not interpret (never compared numerically):
 //   F prec gtok text   P text gtok   J <net fields> json   U json (~|+ <net fields>)
@@ -532,6 +534,10 @@ func (e *convOutExec) exec1(cmd string, a []string) string {
 				if len(strs) >= 1 {
 					joined = strings.Join(strs, "\n")
 				}
+				// C.CString(joined): the bytes + a NUL terminator; the C caller reads up to the first NUL
+				if i := strings.IndexByte(joined, 0); i >= 0 {
+					joined = joined[:i]
+				}
 				if joined == "" {
 					res = "0"
 				} else {
@@ -545,6 +551,14 @@ func (e *convOutExec) exec1(cmd string, a []string) string {
 			res = p
 		}
 		return withOracle(res, or)
+	case "dout.rx": // source text of the REAL compiled regular expression (reached by go:linkname, rxlink.go)
+		rx := libRegex(a[0])
+		if rx == nil {
+			return "panic:unknown_regex"
+		}
+		return hs(rx.String())
+	case "dout.match": // the real regexp's sub-matches on one line
+		return rxMatchRecord(a[0], string(unhx(a[1])))
 	case "dout.lines":
 		n, _ := strconv.Atoi(a[0])
 		lines := make([]string, n)
@@ -1059,11 +1073,50 @@ func genC03(r *Rng, n int, tier string) {
 			}
 			outEmitMsgs("d", ms...)
 		case 4:
-			outEmitMsgs("c", randOutMsg(r, r.Pick(10, 50, 100), true, false))
+			m := randOutMsg(r, r.Pick(10, 50, 100), true, false)
+			if r.Chance(15) { // a NUL byte in a string field: the C string ends there (outside the domain; correspondence only)
+				nulInField(r, m)
+			}
+			outEmitMsgs("c", m)
 		case 5:
 			// values outside the ASCII-representable domain (correspondence only)
 			outEmitMsgs("d", randOutMsg(r, 40, false, true))
 		}
+	}
+}
+
+// put a NUL byte into one string field of the message (C binding: C.CString truncation)
+func nulInField(r *Rng, m *rwp.OutboundMessage) {
+	ins := func(s string) string { // at a rune boundary: the field must stay valid UTF-8 (proto.Marshal)
+		i := r.Intn(len(s) + 1)
+		for i < len(s) && s[i]&0xC0 == 0x80 {
+			i++
+		}
+		return s[:i] + "\x00" + s[i:]
+	}
+	switch r.Intn(5) {
+	case 0:
+		if m.PanelInfo == nil {
+			m.PanelInfo = &rwp.PanelInfo{}
+		}
+		m.PanelInfo.Model = ins(m.PanelInfo.Model)
+	case 1:
+		if m.PanelInfo == nil {
+			m.PanelInfo = &rwp.PanelInfo{}
+		}
+		m.PanelInfo.Name = ins(m.PanelInfo.Name)
+	case 2:
+		if m.Message == nil {
+			m.Message = &rwp.Message{}
+		}
+		m.Message.Message = ins(m.Message.Message)
+	case 3:
+		m.Registers = append(m.Registers, &rwp.Register{Reg: rwp.Register_MEM, Id: ins("A1"), Value: 5})
+	case 4:
+		if m.Connections == nil {
+			m.Connections = &rwp.Connections{}
+		}
+		m.Connections.Connection = append(m.Connections.Connection, ins("10.0.0.1"))
 	}
 }
 
@@ -1167,9 +1220,9 @@ func grammarLine(r *Rng) string {
 		}
 		return "HWC#" + id + e + "=" + []string{"Down", "Up", "Press"}[r.Intn(3)]
 	case 3:
-		return "HWC#" + numText(r, r.u32()) + "=" + []string{"Enc", "Speed"}[r.Intn(2)] + ":" + fmt.Sprint(r.i32())
+		return "HWC#" + numText(r, r.u32()) + optEdge(r) + "=" + []string{"Enc", "Speed"}[r.Intn(2)] + ":" + fmt.Sprint(r.i32())
 	case 4:
-		return "HWC#" + numText(r, r.u32()) + "=" + []string{"Abs", "Raw"}[r.Intn(2)] + ":" + numText(r, r.u32())
+		return "HWC#" + numText(r, r.u32()) + optEdge(r) + "=" + []string{"Abs", "Raw"}[r.Intn(2)] + ":" + numText(r, r.u32())
 	case 5:
 		return "map=" + numText(r, r.u32()) + ":" + numText(r, r.u32())
 	case 6:
@@ -1230,6 +1283,18 @@ func grammarLine(r *Rng) string {
 
 var nonGrammarSamples = []string{"", "pong", "PING", "Ping", "ping ", " ping", "hello", "ActivePanel=1", "HWCt#5=abc", "HWCx#3=7", "HWc#5=Down", "hwc#5=Down", "Map=1:2", "map 1:2", "_Model=x", "model=x", "_modelx=y", "_unknownKey=5", "Foo=Bar", "=x", "=", "_model", "_model=", "_support=", "SysStat=", "ErrorMsg=", "_connections=", "mem5=1", "Member", "{\"a\":1}", "[1,2]", "\t", " ", "#", "BSY ", "RDYx", "list?", "Registers?", "DimmedGains=5", "dimmedGain=5", "Msgs=hello", "éa=b"}
 
+// `HWC#lhs=rhs` (one `=`) whose kind word (rhs up to its first `:`) is not Down|Up|Press|Enc|Abs|Speed|Raw
+var unknownKindSamples = []string{"HWC#5=Foo", "HWC#5.4=Foo:3", "HWC#x=down", "HWC#5=", "HWC#5=:3", "HWC#5=Downx", "HWC#5=DownUp", "HWC#=Foo",
+	"HWC#5=Encoder:3", "HWC#5=enc:3", "HWC#5= Down", "HWC#5=Down ", "HWC#5.4=Rawr:1", "HWC#99999999999=Pressed", "HWC#5=\xc3\xa9", "HWC#5=Abs :1"}
+
+// a value event may carry an edge suffix like a binary one
+func optEdge(r *Rng) string {
+	if r.Chance(30) {
+		return "." + fmt.Sprint(edgePool[r.Intn(len(edgePool))])
+	}
+	return ""
+}
+
 func nonGrammarLine(r *Rng) string {
 	switch r.Intn(3) {
 	case 0:
@@ -1275,7 +1340,121 @@ func fuzzLine(r *Rng, withSys bool) string {
 	return sb.String()
 }
 
+// ---------------------------------------------------------------------------------------------
+// the hand-written byte matchers of the decoder model against the library's real regular expressions
+// ---------------------------------------------------------------------------------------------
+
+func emitMatchOut(rx string, line string) { emitS("dout.match", []string{rx, hs(line)}) }
+
+// every sequence of at most maxLen tokens after the prefix
+func enumTokens(rx, prefix string, toks []string, maxLen int) {
+	var rec func(cur string, depth int)
+	rec = func(cur string, depth int) {
+		emitMatchOut(rx, cur)
+		if depth == maxLen {
+			return
+		}
+		for _, t := range toks {
+			rec(cur+t, depth+1)
+		}
+	}
+	rec(prefix, 0)
+}
+
+func editsOf(l string, alpha []string) []string {
+	out := []string{}
+	for i := 0; i < len(l); i++ {
+		out = append(out, l[:i]+l[i+1:]) // delete
+		for _, a := range alpha {
+			out = append(out, l[:i]+a+l[i+1:]) // replace
+		}
+	}
+	for i := 0; i <= len(l); i++ {
+		for _, a := range alpha {
+			out = append(out, l[:i]+a+l[i:]) // insert
+		}
+	}
+	return out
+}
+
+// all single edits of every valid line; double edits: all of them over the reduced alphabet (thorough), a sample (quick)
+func enumEdits(r *Rng, rx string, valid []string, alpha, reduced []string, thorough bool, sample int) {
+	for _, l := range valid {
+		emitMatchOut(rx, l)
+		singles := editsOf(l, alpha)
+		for _, e := range singles {
+			emitMatchOut(rx, e)
+		}
+		if thorough {
+			for _, e := range editsOf(l, reduced) {
+				for _, e2 := range editsOf(e, reduced) {
+					emitMatchOut(rx, e2)
+				}
+			}
+		} else {
+			for i := 0; i < sample; i++ {
+				e := singles[r.Intn(len(singles))]
+				e2 := editsOf(e, alpha)
+				emitMatchOut(rx, e2[r.Intn(len(e2))])
+			}
+		}
+	}
+}
+
+var outRegexNames = []string{"regex_cmd_inbound", "regex_map", "regex_genericSingle_inbound", "regex_registersOut"}
+
+func genMatchOut(r *Rng, tier string) {
+	thorough := tier == "thorough"
+	for _, n := range outRegexNames {
+		emitS("dout.rx", []string{n})
+	}
+	depth := func(q, t int) int {
+		if thorough {
+			return t
+		}
+		return q
+	}
+	// regex_cmd_inbound = ^HWC#([0-9]+)(|.([0-9]+))=(Down|Up|Press|Abs|Speed|Enc|Raw)(|:([-0-9]+))$
+	cmdBytes := []string{"0", "5", ".", "=", ":", "-", "D", "x", " ", "\n", "\xc3", "\xa9", "\xff"}
+	for _, p := range []string{"HWC#", "HWC#5", "HWC#5=", "HWC#5=Down", "HWC#5=Enc", "HWC#5=Enc:", "HWC#5=Enc:-", "HWC#5.4", "HWC#5.4=", "HWC#5\xc3\xa9", "HWC#5\xc3"} {
+		enumTokens("regex_cmd_inbound", p, cmdBytes, depth(3, 4))
+	}
+	cmdToks := []string{"0", "12", ".", "=", ":", "-", "Down", "Up", "Press", "Abs", "Speed", "Enc", "Raw", "x", "\n", "\xc3\xa9", "\xe2\x82\xac", "\xf0\x9f\x98\x80", "\xed\xa0\x80"}
+	enumTokens("regex_cmd_inbound", "HWC#", cmdToks, depth(3, 4))
+	enumTokens("regex_cmd_inbound", "HWC#7", cmdToks, depth(3, 4))
+	enumEdits(r, "regex_cmd_inbound", []string{"HWC#5=Down", "HWC#12.16=Press", "HWC#7=Enc:-3", "HWC#7.4=Raw:25", "HWC#5=Up", "HWC#1=Speed:0", "HWC#9=Abs:10"},
+		[]string{"0", "5", ".", "=", ":", "-", "D", "p", " ", "\n", "\xc3", "\xa9"}, []string{"5", ".", "=", ":", "\n"}, thorough, 300)
+	// regex_map = ^map=([0-9]+):([0-9]+)$
+	mapBytes := []string{"0", "5", ":", "=", "-", " ", "\n", "x", "\xc3", ","}
+	for _, p := range []string{"map=", "map=5", "map=5:", "map", "ma"} {
+		enumTokens("regex_map", p, mapBytes, depth(4, 5))
+	}
+	enumEdits(r, "regex_map", []string{"map=1:2", "map=007:4294967295"}, []string{"0", ":", "=", "-", " ", "\n", "x", "m"}, []string{"0", ":", "=", "\n"}, thorough, 300)
+	// regex_genericSingle_inbound = ^(key1|…|key29)=(.+)$
+	valBytes := []string{"a", " ", "=", "\n", "\r", "\xff", "\xc3\xa9", "1", ":"}
+	for _, k := range genericKeysAll {
+		enumTokens("regex_genericSingle_inbound", k+"=", valBytes, depth(2, 3))
+		enumTokens("regex_genericSingle_inbound", k, valBytes, 2)
+		for _, e := range editsOf(k+"=v", []string{"_", "s", "=", "\n", "M"}) {
+			emitMatchOut("regex_genericSingle_inbound", e)
+		}
+		for _, k2 := range genericKeysAll { // one key glued to another (prefix-sharing alternatives, leftmost-first)
+			emitMatchOut("regex_genericSingle_inbound", k+k2+"=v")
+			emitMatchOut("regex_genericSingle_inbound", k+"="+k2+"=v")
+		}
+	}
+	// regex_registersOut = ^(Flag#|Mem|Shift|State)([A-Z0-9]*)=([0-9]+)$
+	regBytes := []string{"A", "Z", "0", "9", "a", "=", "#", " ", "\n", "-", "\xc3", "@", "["}
+	for _, p := range []string{"Flag#", "Mem", "Shift", "State", "Flag", "MemA=", "State9=1", "Shift=", "Fla", "Memory"} {
+		enumTokens("regex_registersOut", p, regBytes, depth(3, 4))
+	}
+	enumEdits(r, "regex_registersOut", []string{"Flag#7=1", "MemA1=25", "ShiftZ=0", "State=4294967295", "Flag#=0"},
+		[]string{"A", "0", "a", "=", "#", " ", "\n", "-", "F", "S"}, []string{"A", "0", "=", "#", "\n"}, thorough, 300)
+}
+
 func genC04(r *Rng, n int, tier string) {
+	// the byte matchers of the model against the real regular expressions (bounded-exhaustive)
+	genMatchOut(r, tier)
 	// every flow word, every event kind with and without edge, boundary values
 	for _, w := range []string{"ping", "ack", "nack", "BSY", "RDY", "list"} {
 		outEmitLines(w)
@@ -1293,8 +1472,18 @@ func genC04(r *Rng, n int, tier string) {
 		for _, v := range u32Pool {
 			outEmitLines(fmt.Sprintf("HWC#%s=Abs:%d", id, v), fmt.Sprintf("HWC#%s=Raw:%d", id, v))
 		}
+		// value events with an edge suffix (in the grammar: the suffix carries no information)
+		for _, e := range edgePool {
+			outEmitLines(fmt.Sprintf("HWC#%s.%d=Enc:-3", id, e), fmt.Sprintf("HWC#%s.%d=Speed:2147483647", id, e),
+				fmt.Sprintf("HWC#%s.%d=Abs:4294967295", id, e), fmt.Sprintf("HWC#%s.%d=Raw:7", id, e))
+		}
 	}
 	outEmitLines("HWC#5=Raw:123")
+	// HWC# lines whose kind word is not one of the seven (non-grammar: must be silent)
+	for _, l := range unknownKindSamples {
+		outEmitLines(l)
+		outEmitLines("HWC#1=Down", l, "HWC#2.4=Enc:5", l)
+	}
 	// every key of the key=value family with a plain value
 	for _, k := range genericKeysAll {
 		outEmitLines(k + "=1")
